@@ -1376,6 +1376,10 @@ def check_C06(ctx):
         if (len(f[1]) + len(f[2] if len(f) > 2 else '')) // 2 <= 200:
             Hx.append('H %s %s %s' % (f[0], f[1], f[2] if len(f) > 2 else '-'))
             Hx.append('H %s %s %s' % (f[0], f[1], '31' if f[0] != '4' else '2e30'))     # the end pointer inside a longer string
+    for ln in S:
+        f = ln.split()
+        if f[0] == 'S' and len(f[1]) // 2 <= 120 and f[1] != '-':
+            Hx.append('H S %s -' % f[1])
     for lb, nm in ((ld, 'default'), (ctx.snap.lib(rfc20=True, f5322=True, uscore=True), 'rfc20+f5322+uscore')):
         hl = Hx if nm == 'default' else [h for h in Hx if h[2] in '3D46']
         c_out, m_out = vlib.run_both(lb, ctx.snap, hl)
@@ -1388,7 +1392,7 @@ def check_C06(ctx):
         ctx.rep.notes.append('read-extent(%s): %d cases, %d with exactly the model\'s extent, %d where the code reads less than the model allows' % (nm, len(hl), sum(1 for a, b in zip(c_out, m_out) if a == b), sum(1 for a, b in zip(c_out, m_out) if a != b and not further(a, b))))
         def beyond(a): return 'BEYOND' in a or 'CRASH' in a or (len(a.split()) == 3 and a.split()[1] == '1')
         for l, a, b in sorted(bad, key=lambda t: (not beyond(t[1]), len(t[0])))[:3]:
-            ctx.rep.violation({'kind': 'read-extent', 'run': 'read-extent(%s)' % nm, 'case': l[:600], 'implementation': a[:200], 'model': b[:200], 'theorem': 'C06_*_access_model (LocalA.v, Local6531A.v, DomainA.v, IpA.v)',
+            ctx.rep.violation({'kind': 'read-extent', 'run': 'read-extent(%s)' % nm, 'case': l[:600], 'implementation': a[:200], 'model': b[:200], 'theorem': 'C06_*_access_model (LocalA.v, Local6531A.v, DomainA.v, IpA.v, SpecialA.v)',
                                'explanation': 'the scanner reads outside [first byte, terminator]' if beyond(a) else
                                'the scanner reads further than the access model says (or returns another code): the index-level model no longer bounds what the code reads, so its no-out-of-range-read theorems no longer cover it'},
                               found_input=beyond(a))
